@@ -1027,6 +1027,42 @@ func main() {
 		}
 		id++
 	}
+	// ---- second stream: transactions of MIXED sample kinds, judged by Coq's holds on the flat spec ----
+	fm := fixedMixed()
+	nm := len(fm) + f.Count(14, 300)
+	mouts := make([]mixedOutcome, nm)
+	for k := 0; k < nm; k++ {
+		wg.Add(1)
+		sem <- struct{}{}
+		go func(k int) {
+			defer wg.Done()
+			defer func() { <-sem }()
+			if k < len(fm) {
+				mouts[k] = runMixed(f, 3000000+k, &fm[k])
+			} else {
+				mouts[k] = runMixed(f, 2000000+k-len(fm), nil)
+			}
+		}(k)
+	}
+	wg.Wait()
+	for _, o := range mouts {
+		if seen[o.sig] {
+			continue
+		}
+		seen[o.sig] = true
+		for _, v := range o.goViol {
+			meta.GoViol = append(meta.GoViol, gallina.GoViolation{ID: fmt.Sprint(id), Shape: "mixed-kinds-harness", What: v})
+		}
+		cf.Add(strings.Replace(o.term, "@ID@", gallina.Z(int64(id)), 1))
+		meta.Case(id, o.desc)
+		meta.Evaluations++
+		meta.Nontrivial++
+		meta.Hit("shape-" + o.desc.Shape)
+		for k, v := range o.classes {
+			meta.Dist[k] += v
+		}
+		id++
+	}
 	// "compaction while an appender is open" for every sample kind and both appender interfaces,
 	// judged on the Go side (histograms are not in the Coq model)
 	for _, v2 := range []bool{false, true} {
@@ -1097,4 +1133,235 @@ func openAppenderScenario(out string, k tsdbx.SampleKind, v2 bool) string {
 		return fmt.Sprintf("Close/Open returned %v", err)
 	}
 	return check("after restart")
+}
+
+
+// ---------------------------------------------------------------------------------------------
+// Mixed sample kinds.  One case = one history of committed transactions (Appender and AppenderV2
+// alternately) carrying floats, integer / float histograms, integer / float custom-bucket
+// histograms and float staleness markers with increasing timestamps, followed by full queries
+// (Querier and ChunkQuerier) immediately, after DB.Compact and after Close+Open.  The expected
+// answer is the flat specification: exactly the samples whose Append returned nil in committed
+// transactions, with kind and value.  A sample is coded as kind*10^6 + id (id = float value or
+// histogram Sum; a histogram whose Count is not 1 gets +500000; a staleness marker, stored as float
+// or as histogram, is 5*10^6).  The cases carry SSpec steps: Coq's holds judges them, agree does not.
+
+type msmp struct {
+	S    int    `json:"s"`
+	T    int64  `json:"t"`
+	Kind string `json:"kind"`
+	V    int64  `json:"v"`
+	k    tsdbx.SampleKind
+}
+
+type mtx struct {
+	V2   bool   `json:"appender_v2"`
+	Reqs []msmp `json:"reqs"`
+}
+
+type mixedDesc struct {
+	Seed   uint64 `json:"seed"`
+	Index  int    `json:"index"`
+	Corpus string `json:"corpus,omitempty"`
+	Series int    `json:"series"`
+	OOOWin int64  `json:"ooo_window"`
+	Txs    []mtx  `json:"txs"`
+	Shape  string `json:"shape"`
+}
+
+type mixedOutcome struct {
+	term    string
+	sig     string
+	desc    mixedDesc
+	classes map[string]int
+	goViol  []string
+}
+
+type fixedMix struct {
+	name string
+	n    int
+	win  int64
+	txs  []mtx
+}
+
+func code(k tsdbx.SampleKind, digest, count float64) int64 {
+	if k == tsdbx.KStale {
+		return 5000000
+	}
+	c := int64(k)*1000000 + int64(digest)
+	if k != tsdbx.KFloat && count != 1 {
+		c += 500000
+	}
+	return c
+}
+
+func fixedMixed() []fixedMix {
+	kinds := []tsdbx.SampleKind{tsdbx.KHistogram, tsdbx.KFloatHistogram, tsdbx.KNHCB, tsdbx.KFloatNHCB}
+	var out []fixedMix
+	for _, v2 := range []bool{false, true} {
+		for _, k := range kinds {
+			iface := "appender"
+			if v2 {
+				iface = "appender-v2"
+			}
+			// a histogram kind opens the batch, a float of the same series follows in the same appender
+			out = append(out, fixedMix{fmt.Sprintf("mixed-%s-then-float-same-tx-%s", k, iface), 2, 0, []mtx{
+				{V2: v2, Reqs: []msmp{{S: 0, T: 100, k: k, V: 1}, {S: 0, T: 200, k: tsdbx.KFloat, V: 2}, {S: 1, T: 210, k: tsdbx.KFloat, V: 3}, {S: 0, T: 300, k: k, V: 4}}},
+				{V2: !v2, Reqs: []msmp{{S: 0, T: 400, k: tsdbx.KFloat, V: 5}, {S: 0, T: 500, k: k, V: 6}, {S: 0, T: 600, k: tsdbx.KStale}, {S: 1, T: 2300, k: k, V: 7}}}}})
+		}
+	}
+	// FINDING (unchanged code): the series' last stored sample is a histogram; one appender appends a
+	// float staleness marker and then another sample of the same series; Commit turns the marker into
+	// a histogram marker and queues it BEHIND the later sample of the batch, where it is dropped as
+	// out of order although Append and Commit returned nil
+	out = append(out, fixedMix{"finding-stale-marker-dropped-before-sample-in-same-appender", 1, 0, []mtx{
+		{V2: false, Reqs: []msmp{{S: 0, T: 100, k: tsdbx.KHistogram, V: 1}}},
+		{V2: false, Reqs: []msmp{{S: 0, T: 300, k: tsdbx.KStale}, {S: 0, T: 400, k: tsdbx.KHistogram, V: 2}}}}})
+	return out
+}
+
+func runMixed(f gallina.Flags, idx int, fx *fixedMix) mixedOutcome {
+	g := gen.Fork(f.Seed, idx)
+	n, win := 1+g.Intn(3), gen.Pick(g, []int64{0, 0, 100000})
+	var txs []mtx
+	if fx != nil {
+		n, win, txs = fx.n, fx.win, fx.txs
+	} else {
+		allKinds := []tsdbx.SampleKind{tsdbx.KFloat, tsdbx.KHistogram, tsdbx.KFloatHistogram, tsdbx.KNHCB, tsdbx.KFloatNHCB, tsdbx.KStale}
+		clock := g.PickI64(-1500, 0, 1, 990, 5000)
+		val := int64(0)
+		ntx := 2 + g.Intn(4)
+		for ti := 0; ti < ntx; ti++ {
+			tx := mtx{V2: (idx+ti)%2 == 1}
+			k := 2 + g.Intn(6)
+			staled := map[int]bool{} // series that already got a staleness marker in this transaction
+			for i := 0; i < k; i++ {
+				s := g.Intn(n)
+				if len(tx.Reqs) > 0 && g.Chance(1, 2) { // same series again, usually with another kind
+					s = tx.Reqs[len(tx.Reqs)-1].S
+				}
+				if staled[s] {
+					// finding stale-marker-before-sample-in-same-appender (see notes): generated
+					// transactions put nothing after a staleness marker of the same series; the
+					// reproducer is a fixed case
+					continue
+				}
+				clock += g.PickI64(1, 1, 7, 30, 60)
+				val++
+				kd := gen.Pick(g, allKinds)
+				if kd == tsdbx.KStale {
+					staled[s] = true
+				}
+				tx.Reqs = append(tx.Reqs, msmp{S: s, T: clock, k: kd, V: val})
+			}
+			if len(tx.Reqs) == 0 {
+				continue
+			}
+			txs = append(txs, tx)
+			if g.Chance(1, 3) {
+				clock += g.PickI64(400, 1000, 1700)
+			}
+		}
+	}
+	o := mixedOutcome{classes: map[string]int{}}
+	dir, err := os.MkdirTemp(f.Out, "dbm")
+	if err != nil {
+		panic(err)
+	}
+	defer os.RemoveAll(dir)
+	d, err := tsdbx.Open(dir, tsdbx.Options{BlockRange: blockRange, OOOWindow: win, SamplesPerChunk: 1 << 20})
+	if err != nil {
+		panic(err)
+	}
+	defer func() { d.Close() }()
+	names := map[string]int{}
+	sel := make([]int, n)
+	for i := 0; i < n; i++ {
+		names[lblName(i)] = i
+		sel[i] = i
+	}
+	var steps []string
+	query := func(chunk bool) {
+		var res []tsdbx.TypedSeries
+		var err error
+		if chunk {
+			res, err = d.ChunkQueryTyped(math.MinInt64, math.MaxInt64, tsdbx.MatchAll("a"))
+		} else {
+			res, err = d.QueryTyped(math.MinInt64, math.MaxInt64, tsdbx.MatchAll("a"))
+		}
+		if err != nil {
+			o.goViol = append(o.goViol, fmt.Sprintf("query returned %v", err))
+			return
+		}
+		var it []string
+		for _, sr := range res {
+			var pts []string
+			for _, x := range sr.Samples {
+				pts = append(pts, fmt.Sprintf("(%s, %s)", gallina.Z(x.T), gallina.Z(code(x.Kind, x.Digest, x.Count))))
+			}
+			it = append(it, fmt.Sprintf("(%s, %s)", gallina.Z(int64(names[sr.Labels])), gallina.List(pts)))
+		}
+		steps = append(steps, fmt.Sprintf("SQuery %s %s %s %s", gallina.Z(math.MinInt64), gallina.Z(math.MaxInt64), gSel(sel), gallina.List(it)))
+		o.classes["mixed-query"]++
+	}
+	for ti := range txs {
+		tx := &txs[ti]
+		otx := d.Begin(tx.V2)
+		var acks []string
+		for i := range tx.Reqs {
+			q := &tx.Reqs[i]
+			q.Kind = q.k.String()
+			err := otx.Append(lbl(q.S), q.T, float64(q.V), q.k)
+			o.classes["mixed-append-"+q.Kind]++
+			if err != nil {
+				o.classes["mixed-append-error"]++
+				continue
+			}
+			acks = append(acks, fmt.Sprintf("(%s, %s)", gallina.Z(int64(q.S)), gSample(q.T, code(q.k, float64(q.V), 1))))
+		}
+		if err := otx.Commit(); err != nil {
+			o.goViol = append(o.goViol, fmt.Sprintf("Commit returned %v", err))
+			break
+		}
+		steps = append(steps, fmt.Sprintf("SSpec (SAck %s)", gallina.List(acks)))
+		if fx != nil || g.Chance(1, 2) {
+			query(ti%2 == 1)
+		}
+	}
+	query(false)
+	query(true)
+	if err := d.Compact(); err != nil {
+		o.goViol = append(o.goViol, fmt.Sprintf("Compact returned %v", err))
+	}
+	query(false)
+	query(true)
+	if err := d.Reopen(); err != nil {
+		o.goViol = append(o.goViol, fmt.Sprintf("Close/Open returned %v", err))
+	} else {
+		query(false)
+		query(true)
+	}
+	u := make([]string, n)
+	for i := range u {
+		u[i] = gallina.Z(int64(i))
+	}
+	o.term = fmt.Sprintf("mkCase @ID@ (mkCfg %s %s %s) %s", gallina.Z(blockRange), gallina.Z(win), gallina.List(u), gallina.List(steps))
+	o.sig = "mixed;" + strings.Join(steps, ";")
+	shape := "mixed-kinds"
+	for _, tx := range txs {
+		st := map[int]bool{}
+		for _, q := range tx.Reqs {
+			if st[q.S] {
+				shape = "stale-marker-before-sample-in-same-appender"
+			}
+			if q.k == tsdbx.KStale {
+				st[q.S] = true
+			}
+		}
+	}
+	o.desc = mixedDesc{Seed: f.Seed, Index: idx, Series: n, OOOWin: win, Txs: txs, Shape: shape}
+	if fx != nil {
+		o.desc.Corpus = fx.name
+	}
+	return o
 }
